@@ -96,12 +96,71 @@ class C03Replayer(MdibReplayer):
         return out
 
 
-def generate(run, num, depth, seed, cfg='Mdib_sim.cfg', module='MdibMC'):
-    res = run_tlc(module, cfg, workers=1, simulate=f'num={num}', depth=depth, seed=seed, timeout=1800)
+def situation_labels(beh) -> set:
+    """Coverage labels of one behaviour: the situation labels the specification attached to every finished
+    transaction (Mdib.tla SitOf), pairs of consecutive transaction kinds, pairs of consecutive API calls inside a
+    transaction (with their result) and the hand-out channel of a MutateCopy after a transaction kind."""
+    out = set()
+    kinds = []
+    prev = None
+    kind = None
+    for r in beh:
+        act = r['act']
+        if act == 'Begin':
+            kind = r['kind']
+            prev = None
+            continue
+        if act in ('Commit', 'Abort'):
+            out.update(r.get('sit', ()))
+            kinds.append(f'{kind}:{act}')
+            if len(kinds) > 1:
+                out.add(f'P:{kinds[-2]}>{kinds[-1]}')
+            prev = None
+            continue
+        if act == 'MutateCopy':
+            out.add(f'M:{r["src"]}:{kinds[-1] if kinds else "-"}')
+            continue
+        cur = f'{act}:{r["res"]}'
+        if prev is not None:
+            out.add(f'A:{kind}:{prev}>{cur}')
+        prev = cur
+    return out
+
+
+def select_covering(behs, num, seed):
+    """Greedy set cover over the situation labels (shortest behaviour first among equals), then a seeded random
+    fill up to `num` behaviours."""
+    import random
+    labs = [situation_labels(b) for b in behs]
+    left = set().union(*labs) if labs else set()
+    total = len(left)
+    chosen, chosen_set = [], set()
+    order = sorted(range(len(behs)), key=lambda i: len(behs[i]))
+    while left:
+        best = max(order, key=lambda i: (len(labs[i] & left), -len(behs[i])))
+        if not labs[best] & left:
+            break
+        chosen.append(best)
+        chosen_set.add(best)
+        left -= labs[best]
+    rest = [i for i in range(len(behs)) if i not in chosen_set]
+    random.Random(seed).shuffle(rest)
+    fill = rest[:max(0, num - len(chosen))]
+    return [behs[i] for i in chosen + fill], {'labels': total, 'cover': len(chosen), 'fill': len(fill),
+                                              'pool': len(behs)}
+
+
+def generate(run, num, depth, seed, cfg='Mdib_sim.cfg', module='MdibMC', pool=None):
+    """`pool` behaviours are simulated by TLC; the ones replayed are chosen to cover every situation label of the pool
+    (select_covering) and filled up to `num` at random (more than `num` if the cover needs more)."""
+    pool = pool or max(num, run.pick(3000, 12000))
+    res = run_tlc(module, cfg, workers=1, simulate=f'num={pool}', depth=depth, seed=seed, timeout=1800)
     run.add_tlc(res)
     behs = json_lines(res.stdout, 'BEH')
-    if len(behs) < num // 2:
-        raise MachineryError(f'expected about {num} behaviours from TLC, got {len(behs)}')
+    if len(behs) < pool // 2:
+        raise MachineryError(f'expected about {pool} behaviours from TLC, got {len(behs)}')
+    behs, stats = select_covering(behs, num, seed)
+    run.note('situation_coverage', stats)
     return behs
 
 
@@ -157,7 +216,7 @@ def strip(trace):
     """Drop what the trace spec does not need (keeps the JSON small)."""
     out = []
     for r in trace:
-        r2 = {k: v for k, v in r.items() if k not in ('exc', 'model_res', 'obs')}
+        r2 = {k: v for k, v in r.items() if k not in ('exc', 'model_res', 'obs', 'sit')}
         out.append(r2)
     return out
 
